@@ -375,7 +375,8 @@ void rfbDoCopyRegion(rfbScreenInfoPtr screen,sraRegionPtr copyRegion,int dx,int 
    char *in,*out;
 
    /* copy it, really */
-   i = sraRgnGetReverseIterator(copyRegion,dx<0,dy<0);
+   /* same order as rfbSendCopyRegion: no rectangle may read what an earlier one has written */
+   i = sraRgnGetReverseIterator(copyRegion,dx>0,dy>0);
    while(sraRgnIteratorNext(i,&rect)) {
      widthInBytes = (rect.x2-rect.x1)*bpp;
      out = screen->frameBuffer+rect.x1*bpp+rect.y1*rowstride;
